@@ -71,7 +71,7 @@ Proof.
   cbn [map absf g_key g_phase f_key f_phase]. unfold step_frame, step_frame2.
   cbn [abs c_proto c_memo c_cur c_thr abst th_todo].
   intros H. exists c.
-  destruct ph as [| | | |l ok|l acc|v ch|v ch]; cbn [absp] in H.
+  destruct ph as [| | | |l ok|l acc mc|v ch|v ch]; cbn [absp] in H.
   - destruct (c2_memo s2 k) as [m|]; [destruct (n_ver m =? c2_cur s2)|]; eauto.
   - destruct (Model.step fuel (c2_proto s2) (OClaim t k true)) as [[pr1 out]|]; [|discriminate].
     destruct out as [r| | | | | | |]; try discriminate. destruct r as [md|o|inner]; eauto.
@@ -83,7 +83,7 @@ Proof.
   - destruct l as [|d rest].
     + destruct (c2_memo s2 k) as [m|]; [|eauto].
       destruct (ok && inputs_unchanged Q (c2_cur s2) k (n_ver m)); eauto.
-    + destruct ok; eauto.
+    + destruct (ok && c); eauto.
   - destruct l; eauto.
   - destruct (Model.step fuel (c2_proto s2) (ORemove t k)) as [[pr1 out]|]; [|discriminate].
     destruct out as [| | |st| | | |]; try discriminate.
